@@ -10,7 +10,27 @@ GARBAGE = [b"abc", b"+5", b"-5", b" 5", b"5 ", b"0x10", b"", b"1e3", b"007", b"+
            b"18446744073709551615", b"18446744073709551616", b"99999999999999999999999", b"+0", b"00"]
 
 
+def gen_loopback(rng):
+    """the PUBLIC `BufferedBody::extract`, reached through a real pavex server on loopback: the four ways a client can
+    frame a body (HTTP/1.1 chunked or with Content-Length, HTTP/2 with or without Content-Length: there the end of the
+    body is END_STREAM and no header announces it)."""
+    n = rng.choice([0, 1, 2, 3, 5, 8, 16, 17, 64, 100, 255, 1000])
+    length = max(0, n + rng.choice([-2, -1, 0, 0, 1, 1, 2, 7, 40])) if rng.random() < 0.7 else rng.randrange(0, 2 * n + 4)
+    body = [rng.randrange(256) for _ in range(length)]
+    frames, i = [], 0
+    style = rng.random()
+    while i < length:
+        k = 1 if style < 0.2 else rng.randrange(1, max(2, length // 2 + 2))
+        frames.append(body[i:i + k])
+        i += k
+    proto = rng.choice(["h1-chunked", "h1-cl", "h2-cl", "h2-nocl", "h2-nocl"])
+    hdr = list(str(length).encode()) if proto in ("h1-cl", "h2-cl") else None
+    return {"hdr": hdr, "limit": n, "frames": frames, "proto": proto}
+
+
 def gen(rng):
+    if rng.random() < 0.12:
+        return gen_loopback(rng)
     n = rng.choice([0, 1, 2, 3, 5, 8, 16, 17, 64, 100, 255, 1000])
     mode = rng.random()
     if mode < 0.6:
@@ -88,6 +108,9 @@ def nontrivial(case, out):
 
 def mutate(rng, c):
     c = dict(c)
+    if "proto" in c:
+        c["proto"] = rng.choice(["h1-chunked", "h2-nocl"])
+        c["hdr"] = None
     c["limit"] = max(0, c["limit"] + rng.choice([-1, 0, 1]))
     return c
 
@@ -96,12 +119,13 @@ def run(R):
     R.assumptions += [
         "64-bit target (usize = u64)",
         "http_body_util::Limited / BodyExt::collect modelled (collectLimited), validated by this correspondence only",
-        "hyper's own Content-Length enforcement on the wire is outside the model (the hook bypasses it on purpose)",
+        "hyper's own Content-Length enforcement on the wire is outside the model (the hook bypasses it on purpose; the loopback cases only send truthful Content-Length headers)",
+        "12% of the cases go through the PUBLIC BufferedBody::extract behind a real pavex::server::Server on loopback (HTTP/1.1 chunked / Content-Length, HTTP/2 with / without Content-Length); hyper may re-chunk the frames (chunking_irrelevant)",
     ]
     R.coverage["trusted_base"].append("cfg(pavex_verif) hook BufferedBody::verif_extract_with_limit is a plain forwarder to _extract_with_limit")
     pxvlib.differential(
         R, modules=["Pxv.Thm.C14"], model="body", gen=gen, oracle=oracle, nontrivial=nontrivial, mutate=mutate,
         n_quick=5000, n_thorough=300000,
         rule="limit x body length (biased to N-2..N+2) x random frame split (empty/1-byte frames, trailers, transport errors) x "
-             "Content-Length {absent, truthful, too small, too large, garbage}; non-trivial = body within 2 bytes of the limit or header disagreeing with the body; distinct by full input",
+             "Content-Length {absent, truthful, too small, too large, garbage}; 12% through a real server on loopback (h1 chunked, h1 CL, h2 CL, h2 without CL); non-trivial = body within 2 bytes of the limit or header disagreeing with the body; distinct by full input",
     )
